@@ -480,16 +480,17 @@ void verif_enumerate(verif::Ctx &ctx)
     for (int n = 2; n <= sp.max_nodes; ++n)
     {
         std::vector<Stmt> cur;
-        gen(sp, cur, [&](const std::vector<Stmt> &st) {
+        auto process = [&](const std::vector<Stmt> &st, bool passive_variant) {
             if (!ctx.next_is_mine()) return;
             ++programs;
+            if (passive_variant) ctx.count("passive_variant_programs");
             Program p; p.st = st;
             std::vector<int> perm(st.size());
             for (std::size_t i = 0; i < perm.size(); ++i) perm[i] = static_cast<int>(i);
             // histories: every tick pattern of every source over `cycles` (value masks for bool sources: 2 fixed patterns)
             std::vector<int> srcs;
             for (std::size_t i = 0; i < st.size(); ++i) if (st[i].kind == SRC || st[i].kind == BSRC) srcs.push_back(static_cast<int>(i));
-            const int cyc = (!th && n == sp.max_nodes) ? 2 : sp.cycles;  // quick: the largest programs get T=2, smaller ones T=3
+            const int cyc = ((!th && n == sp.max_nodes) || passive_variant) ? 2 : sp.cycles;  // quick: the largest programs get T=2, smaller ones T=3
             const unsigned per = 1u << cyc;
             std::uint64_t nh = 1;
             for (std::size_t i = 0; i < srcs.size(); ++i) nh *= per;
@@ -544,6 +545,12 @@ void verif_enumerate(verif::Ctx &ctx)
                     else if (ctx.evaluations % 20011 == 1) ctx.sample("runs", desc);
                 }
             } while (std::next_permutation(perm.begin(), perm.end()));
+        };
+        gen(sp, cur, [&](const std::vector<Stmt> &st) {
+            process(st, false);
+            // the same program with the second input of one two/three-input node marked passive(): the passive producer must still be ranked first
+            for (std::size_t i = 0; i < st.size(); ++i)
+                if ((st[i].kind == F2 || st[i].kind == F3) && st[i].pmask == 0) { std::vector<Stmt> v = st; v[i].pmask = 2u; process(v, true); }
         }, n);
     }
     ctx.counters["programs"] = programs;
